@@ -44,6 +44,13 @@ def run(chk):
         C17.glue_part(chk, None)
         C17.query_fresh(chk, None)
         C17.tables(chk)
+        # the routes by which a sketch of given (p, seed) comes into being keep p, seed and a register
+        # array of exactly 2^p entries: save/load (C10's rows) and shared memory (C16's layout rows)
+        from . import C10, C16
+        from .. import glue
+
+        C10.part(chk, ["HyperLogLog"])
+        C16.owner_layout(chk, glue.make_exec(chk), "HyperLogLog", None)
     except Exception as e:  # pyexec.Unsupported
         if type(e).__name__ != "Unsupported":
             raise
